@@ -142,6 +142,26 @@ def learn(ctx: Context) -> None:
         p = g.path_avoiding(g.entry, {x}, cn)
         ctx.check(p is None, "R2.order", "MABEpsilonGreedy.learn:count-before-step", "the visit is counted before the step size 1/count is computed",
                   "the step size is taken before the count is incremented (1/0 on the first visit, stale afterwards)", f, step_calls[0], path_text(f, p))
+    # every call of learn() counts the visit and then moves the estimate: no path may leave early (an early return on `reward == Q[a]` would
+    # freeze the count, so later sample-average steps 1/count are too large)
+    from ..util import path_summaries
+    n_paths = 0
+    for ps in path_summaries(f, g):
+        if ps.ends == "raise":
+            continue
+        n_paths += 1
+        names = [a for a, _, _ in ps.stores]
+        ci = next((i for i, a in enumerate(names) if a.startswith("actions_count[")), None)
+        qi = next((i for i, a in enumerate(names) if a.startswith("Q[")), None)
+        ok = ci is not None and qi is not None and ci < qi
+        if not ok:
+            what = "neither counts the visit nor updates the estimate" if ci is None and qi is None else "does not count the visit" if ci is None else "does not update the estimate" if qi is None \
+                else "updates the estimate before counting the visit"
+            ctx.fail("R2.every-path", "MABEpsilonGreedy.learn:every-path", f"on the path [{ps.text() or 'straight'}] learn() {what}: the count (and with alpha = -1 every later step size 1/count) "
+                     "no longer reflects the number of times the action was learned", f, f.node, [ps.text()])
+            break
+    else:
+        ctx.ok("R2.every-path", "MABEpsilonGreedy.learn:every-path", f"{n_paths} path(s) through learn(): each counts the visit, then updates the estimate")
     # step size
     gs = ctx.func(f"{AG}.get_step_size")
     ns = normaliser(prog, gs)
